@@ -50,6 +50,11 @@ def generate(seed, tier, k):
         allow = ("linear", "linear", "simplex") if dim == 2 else ("simplex", "linear")
         if fk.startswith("Mixed"):
             allow = ("linear", "quadratic") if dim == 2 else ("linear",)
+    big = case == "form" and gen.kpick(seed, "big-form", 16) == 0
+    if big:
+        # one quadratic hexahedron with a vector field: 60 x 60 (81 x 81) pairs of basis functions,
+        # i.e. thousands of worker threads in the threaded Form path
+        fk, dim, allow = "Field", 3, (r.choice(["quadratic", "quadratic", "full"]),)
     mesh = gen.gen_mesh(r, dim=dim, allow=allow, max_cells=6 if case == "array" else (4 if dim == 2 else 1))
     doc = {"kind": "c02", "seed": seed, "mesh": mesh, "fieldkind": fk, "case": case, "region": {}}
     uniform_ok = not mesh.get("perturb") and not mesh.get("convert")
@@ -100,6 +105,12 @@ def generate(seed, tier, k):
         sch = [{"policy": "fifo"}, {"policy": "lifo"}, {"policy": "rr"}]
         for _ in range(nsched):
             sch.append({"policy": "random", "seed": r.randrange(1 << 30)})
+        if big:
+            f["big"] = True
+            kind = r.choice(["gradgrad", "valval", "gradval"])
+            f["kind"] = kind
+            f["sym_flag"] = f["symmetric"] and kind in ("gradgrad", "valval") and f["sym_flag"]
+            sch = [{"policy": "lifo"}, {"policy": "fifo"}, {"policy": "random", "seed": r.randrange(1 << 30)}, {"policy": "random", "seed": r.randrange(1 << 30)}]
         f["schedules"] = sch
         f["basis_parallel"] = r.random() < 0.3
         # history on one Form object: the region is reloaded in place (mesh.update + region.reload)
@@ -716,7 +727,8 @@ def run_form(doc, log):
         else:
             frm, wfs = build(c)
         rng_s = Streams(sc.get("seed", 0))["sched"]
-        sim = SimThreads(policy=sc["policy"], rng=rng_s, extra_codes=[w.__code__ for w in wfs])
+        coarse = {"inline": True, "instruction_events": False} if f.get("big") else {}
+        sim = SimThreads(policy=sc["policy"], rng=rng_s, extra_codes=[w.__code__ for w in wfs], **coarse)
         exc = None
         with sim:
             try:
